@@ -2,7 +2,7 @@
    Statements only.  Histories are lists of Accept / End events (an End stands for every way a
    connection can finish: failed authentication, no channel, several channels or shell requests,
    normal or abrupt close). *)
-From DT Require Import Lib.Bytes Model.C14_Conn Proofs.C14_Conn.
+From DT Require Import Lib.Bytes Model.C14_Conn Proofs.C14_Conn Model.C14_Proto Proofs.C14_Proto.
 
 (* For every MaxConnections and every history: the reported number equals the number of
    connections being served, is never negative and never exceeds the maximum. *)
@@ -40,3 +40,23 @@ Theorem C14_refuted_burst :          (* a burst passes the check before anybody 
   pcount (prun 1 [PAccept 1; PAccept 2; PAccept 3; PHandshakeOK 1; PHandshakeOK 2; PHandshakeOK 3]) = 3%Z.
 Proof. vm_compute. reflexivity. Qed.
 Print Assumptions C14_refuted_burst.
+
+(* What ends a served connection (the End events above), Model/C14_Proto.v.  A connection ends at most once; channel-opens
+   of ANY type (a rejected "direct-tcpip" included) and shell requests never end it - its slot stays taken for as long as
+   the client stays; a request other than "shell", a failed handshake, the client going away and a finishing handler end it. *)
+Theorem C14_ends_once : forall es1 es2, holds_slot (srun es1) = false -> holds_slot (srun (es1 ++ es2)) = false.
+Proof. exact ends_once. Qed.
+Theorem C14_channels_and_shells_keep_the_slot : forall es p, forallb harmless es = true -> holds_slot p = true ->
+  holds_slot (fold_left sstep es p) = true.
+Proof. exact harmless_run. Qed.
+Theorem C14_other_request_ends : forall c h, sstep (PServing (S c) h) (SReq false) = PEnded.
+Proof. exact other_request_ends. Qed.
+Theorem C14_client_close_ends : forall p, sstep p SClientClose = PEnded.
+Proof. exact client_close_ends. Qed.
+Print Assumptions C14_channels_and_shells_keep_the_slot.
+
+Example C14_proto_example :
+  holds_slot (srun [SAuthOk; SChan false; SChan true; SReq true; SReq true]) = true
+  /\ holds_slot (srun [SAuthOk; SChan true; SReq false; SChan true]) = false
+  /\ holds_slot (srun [SAuthFail; SAuthOk]) = false /\ holds_slot (srun []) = true.
+Proof. vm_compute. repeat split; reflexivity. Qed.
